@@ -22,7 +22,7 @@ import numpy as np
 from hypothesis import strategies as st
 
 from vp import gen
-from vp.framework import HarnessError, Violation
+from vp.framework import HarnessError, Inconclusive, Violation
 
 RULE = ("Grid pairs are built by construction, per direction one of the "
         "relations ident / same (same interval, other partition) / refine "
@@ -54,7 +54,9 @@ SHARDS = {'quick': 1, 'thorough': 16}
 C_EPS = 1e4*np.finfo(float).eps
 RELS = ['ident', 'same', 'refine', 'coarsen', 'inside', 'outside', 'shift',
         'translate',
-        'disjoint']
+        'disjoint',
+        # same cell widths, other origin (shift of at least ~one cell)
+        'translate_same']
 CONSERVING = {'ident', 'same', 'refine', 'coarsen'}
 KIND_POOLS = {
     'identical': ['ident'],
@@ -67,10 +69,17 @@ KIND_POOLS = {
     # translated copy of the bounding box: same total extent in every
     # direction, other origin (and possibly other partition)
     'translated': ['translate', 'translate', 'same', 'ident'],
+    # identical widths in every direction, only the origin differs
+    'translated_same': ['translate_same', 'translate_same', 'ident'],
     'disjoint': ['disjoint', 'shift', 'outside', 'same'],
     'mixed': RELS,
 }
 NCELL = st.sampled_from([3, 2, 4, 5, 12, 6, 1, 7, 8, 2, 9, 10, 3, 11, 12, 4])
+# many cells in ONE direction (the other two are cut to <= 2 cells): the
+# merged node set of that direction exceeds 127 / 255 entries
+BIG = st.sampled_from([0, 0, 0, 0, 0, 0, 100, 130, 300])
+NCELL_W = st.sampled_from([3, 2, 4, 5, 12, 6, 1, 7, 8, 2, 9, 10, 3, 11, 12, 4,
+                           100, 130, 300])
 
 
 # ------------------------------------------------------------ strategies
@@ -86,11 +95,14 @@ def pair_spec(kinds=None):
             'na': st.tuples(NCELL, NCELL, NCELL).map(list),
             'nb': st.tuples(NCELL, NCELL, NCELL).map(list),
             'arith': st.sampled_from(['float', 'lattice', 'float']),
-            'widths': st.sampled_from(['random', 'stretch', 'uniform']),
+            'widths': st.sampled_from(['random', 'stretch', 'uniform',
+                                       'boundary']),
             'lgunit': st.integers(-4, 8),
             'scale': gen.lgfloat(1e-2, 1e4),
             'offset': st.sampled_from([0.0, 1.0, 1.0, 30.0, 1000.0]),
             'seed': gen.SEED,
+            'big': BIG,
+            'bigside': st.sampled_from(['ab', 'a', 'b']),
         }))
     return st.one_of(*alts)
 
@@ -100,9 +112,12 @@ def values_spec():
         'decades': st.one_of(st.sampled_from([8.0, 6.0, 4.0, 2.0, 1.0, 0.3]),
                              st.floats(0.0, 8.0)),
         'hetero': st.sampled_from(['noise', 'blocks', 'layered', 'spike',
-                                   'noise', 'homog']),
+                                   'noise', 'homog', 'air_layer']),
         'center': st.floats(-1.0, 1.0),
         'seed': gen.SEED,
+        # wide: the window of the values is [1e-14, 1e14] instead of
+        # [1e-4, 1e4] (the spread within one array stays <= `decades`)
+        'wide': st.sampled_from([False, False, True]),
     })
 
 
@@ -150,6 +165,12 @@ def _axis_lattice(rel, na, nb, rng):
         a = _int_partition(rng, 0, L, na)
         sh = int(rng.integers(1, L+3))*(-1)**int(rng.integers(2))
         return a, _int_partition(rng, sh, sh+L, nb)
+    if rel == 'translate_same':
+        L = na + int(rng.integers(0, 12))
+        a = _int_partition(rng, 0, L, na)
+        sh = int(rng.integers(int(np.diff(a).max()), L+3)) * \
+            (-1)**int(rng.integers(2))
+        return a, a + sh
     if rel == 'shift':
         L = max(na, 2) + int(rng.integers(0, 12))
         a = _int_partition(rng, 0, L, na)
@@ -178,7 +199,23 @@ def _widths(rng, n, kind):
         return np.ones(n)*rng.uniform(0.5, 2)
     if kind == 'stretch':
         c = rng.uniform(0, max(n-1, 0))
-        return rng.uniform(1.0, 1.5)**np.abs(np.arange(n)-c)*rng.uniform(0.5, 2)
+        f = rng.uniform(1.0, 1.5)
+        if n > 12:                  # same total ratio as for 12 cells
+            f = f**(11.0/(n-1))
+        return f**np.abs(np.arange(n)-c)*rng.uniform(0.5, 2)
+    if kind == 'boundary':
+        # computational-grid like: uniform core, one or two boundary cells
+        # per side which are 10 .. 1e4 times wider than the core cells
+        h = np.ones(n)*rng.uniform(0.5, 2)
+        ratio = 10.0**rng.uniform(1, 4)
+        k = int(rng.integers(1, 3))
+        for side in (0, 1):
+            if not rng.integers(0, 3):          # a third: this side plain
+                continue
+            for j in range(min(k, (n-1)//2)):
+                i = j if side == 0 else n-1-j
+                h[i] *= ratio**((k-j)/k)
+        return h
     return rng.uniform(0.5, 2, size=n)
 
 
@@ -200,7 +237,7 @@ def _axis_float(rel, na, nb, rng, kind, scale, offset):
         o = rng.uniform(-1, 1)*L*offset
         return (hc, o, hf, o) if rel == 'refine' else (hf, o, hc, o)
     n1 = na
-    n2 = na if rel == 'ident' else nb
+    n2 = na if rel in ('ident', 'translate_same') else nb
     h1 = _widths(rng, n1, kind)*scale
     L = h1.sum()
     o1 = rng.uniform(-1, 1)*L*offset
@@ -209,6 +246,9 @@ def _axis_float(rel, na, nb, rng, kind, scale, offset):
         return h1, o1, h1.copy(), o1
     if rel == 'same':
         return h1, o1, interval(0.0, L, n2), o1
+    if rel == 'translate_same':
+        sh = rng.uniform(1.0, 3.0)*h1.max()*(-1)**int(rng.integers(2))
+        return h1, o1, h1.copy(), o1 + sh
     if rel == 'inside':
         p = o1 + rng.uniform(0, 0.6)*L*rng.integers(0, 2)
         q = end - rng.uniform(0, 0.3)*L*rng.integers(0, 2)
@@ -245,6 +285,24 @@ def effective_rels(ps):
     return rels
 
 
+def cell_counts(ps):
+    """Cell counts per direction of source and target (drawn; with 'big'
+    one direction gets 100..300 cells and the other two at most 2)."""
+    na, nb = list(ps['na']), list(ps['nb'])
+    big = ps.get('big', 0)
+    if big:
+        side = ps.get('bigside', 'ab')
+        for d in range(3):
+            if d == ps['axis']:
+                if side in ('a', 'ab'):
+                    na[d] = big
+                if side in ('b', 'ab'):
+                    nb[d] = big if side == 'b' else (2*big)//3
+            else:
+                na[d], nb[d] = min(na[d], 2), min(nb[d], 2)
+    return na, nb
+
+
 def build_pair(ps):
     """-> g1 (source), g2 (target), info dict."""
     import emg3d
@@ -252,8 +310,9 @@ def build_pair(ps):
     rels = effective_rels(ps)
     lattice = ps['arith'] == 'lattice'
     h1, h2, o1, o2, exact = [], [], [], [], []
+    cna, cnb = cell_counts(ps)
     for d in range(3):
-        na, nb = ps['na'][d], ps['nb'][d]
+        na, nb = cna[d], cnb[d]
         if lattice:
             a, b = _axis_lattice(rels[d], na, nb, rng)
             u = 2.0**ps['lgunit']
@@ -292,12 +351,78 @@ def build_pair(ps):
     return g1, g2, info
 
 
+def pair_info(ga, gb, lattice, rels):
+    """info dict (as from build_pair) for any source ga and target gb."""
+    n1 = [ga.nodes_x, ga.nodes_y, ga.nodes_z]
+    n2 = [gb.nodes_x, gb.nodes_y, gb.nodes_z]
+    h1 = [np.diff(x) for x in n1]
+    h2 = [np.diff(x) for x in n2]
+    kappa = 1.0
+    for d in range(3):
+        if np.any(h1[d] <= 0) or np.any(h2[d] <= 0):
+            raise HarnessError("generator produced non-increasing nodes")
+        if not lattice:
+            big = max(np.abs(n1[d]).max(), np.abs(n2[d]).max())
+            kappa += big/min(h1[d].min(), h2[d].min())
+    identical = all(np.array_equal(n1[d], n2[d]) for d in range(3))
+    return {'rels': list(rels), 'lattice': lattice, 'kappa': kappa,
+            'conserving': False, 'identical': identical,
+            'n1': n1, 'n2': n2, 'h1': h1, 'h2': h2}
+
+
+def fresh_mesh(g):
+    """A new, never used TensorMesh object equal to g."""
+    import emg3d
+    out = emg3d.TensorMesh([np.array(h, copy=True) for h in g.h],
+                           origin=np.array(g.origin, copy=True))
+    for a, b in zip((g.nodes_x, g.nodes_y, g.nodes_z),
+                    (out.nodes_x, out.nodes_y, out.nodes_z)):
+        if not np.array_equal(a, b):
+            raise HarnessError("copy of a mesh has other nodes")
+    return out
+
+
+def third_grid(ps, info, salt):
+    """A further grid g3 for the pair of `info`: per direction 1..12 cells
+    whose nodes are drawn from the nodes of g1 and g2 and the midpoints
+    between them (exact on the lattice; on float grids candidates closer
+    than 5 % of the smallest cell are dropped).  -> g3 or None."""
+    import emg3d
+    rng = gen.rng_of(ps['seed'], salt)
+    nodes = []
+    for d in range(3):
+        s = np.unique(np.concatenate([info['n1'][d], info['n2'][d]]))
+        s = np.unique(np.concatenate([s, 0.5*(s[:-1] + s[1:])]))
+        if not info['lattice']:
+            gap = 0.05*min(info['h1'][d].min(), info['h2'][d].min())
+            keep = [s[0]]
+            for x in s[1:]:
+                if x - keep[-1] > gap:
+                    keep.append(x)
+            s = np.array(keep)
+        if len(s) < 2:
+            return None
+        n3 = int(rng.integers(1, min(len(s)-1, 12)+1))
+        idx = np.sort(rng.choice(len(s), size=n3+1, replace=False))
+        nodes.append(s[idx])
+    g3 = emg3d.TensorMesh([np.diff(x) for x in nodes],
+                          origin=np.array([x[0] for x in nodes]))
+    if info['lattice']:
+        for a, b in zip(nodes, (g3.nodes_x, g3.nodes_y, g3.nodes_z)):
+            if not np.array_equal(a, b):
+                raise HarnessError("lattice nodes of the third grid are not "
+                                   "exact")
+    return g3
+
+
 def build_values(vs, shape, salt=31):
-    """Positive values within [1e-4, 1e4]; returns array (F-ordered)."""
+    """Positive values within [1e-4, 1e4] ([1e-14, 1e14] if 'wide');
+    returns array (F-ordered)."""
     rng = gen.rng_of(vs['seed'], salt)
     shape = tuple(shape)
     d = vs['decades']
-    c = vs['center']*(4.0 - d/2)
+    half = 14.0 if vs.get('wide', False) else 4.0
+    c = vs['center']*(half - d/2)
     het = vs['hetero']
     if het == 'homog':
         lg = np.full(shape, c + rng.uniform(-d/2, d/2))
@@ -321,7 +446,12 @@ def build_values(vs, shape, salt=31):
         lg[k] = c + d/2
     else:
         lg = c + rng.uniform(-d/2, d/2, size=shape)
-    return np.asfortranarray(10.0**np.clip(lg, -4.0, 4.0))
+    lg = np.clip(lg, -half, half)
+    if het == 'air_layer' and shape[2] > 1:
+        # uppermost z-cells: air, 1e-14 .. 1e-8 (S/m as a conductivity)
+        k = int(rng.integers(1, shape[2]))
+        lg[:, :, shape[2]-k:] = rng.uniform(-14.0, -8.0)
+    return np.asfortranarray(10.0**lg)
 
 
 # ------------------------------------------------------------- reference
@@ -445,6 +575,10 @@ def _classify_pair(rec, ps, info, g1, g2):
         rec.cls('has_1cell_dir')
     if 12 in g1.shape_cells or 12 in g2.shape_cells:
         rec.cls('has_12cell_dir')
+    if max(max(g1.shape_cells), max(g2.shape_cells)) >= 100:
+        rec.cls('has_100+cell_dir')
+    if not info['lattice']:
+        rec.cls(f"widths={ps['widths']}")
     if not info['lattice']:
         rec.cls('kappa=' + ('<1e2' if info['kappa'] < 1e2 else
                             '<1e4' if info['kappa'] < 1e4 else '>=1e4'))
@@ -470,7 +604,25 @@ def interp_strategy(kinds=None):
         'pair': pair_spec(kinds),
         'values': values_spec(),
         'corder': st.booleans(),
+        # memory layout of the values (None: 'corder' decides, as before)
+        'layout': st.sampled_from([None, None, 'strided', 'negstride']),
+        'dtype': st.sampled_from(['f8', 'f8', 'f8', 'f4']),
+        # extra calls: extrapolate=False (documented to be without effect
+        # for 'volume'); 1/values in log mode
+        'extrapolate': st.booleans(),
+        'reciprocal': st.booleans(),
     })
+
+
+def _layout(v, layout):
+    """The same values as a non-contiguous view."""
+    if layout == 'strided':
+        big = np.zeros(tuple(2*n for n in v.shape), dtype=v.dtype)
+        big[::2, ::2, ::2] = v
+        return big[::2, ::2, ::2]
+    if layout == 'negstride':
+        return np.ascontiguousarray(v[::-1, ::-1, ::-1])[::-1, ::-1, ::-1]
+    return v
 
 
 def case_interp(spec, rec):
@@ -481,8 +633,21 @@ def case_interp(spec, rec):
     v = build_values(vs, g1.shape_cells)
     if spec['corder']:
         v = np.ascontiguousarray(v)
+    layout = spec.get('layout', None)
+    f4 = spec.get('dtype', 'f8') == 'f4'
+    if f4:
+        # single precision input (accepted: the output is allocated with the
+        # dtype of the values); the checker works with the rounded values
+        v = v.astype(np.float32)
+    v = _layout(v, layout)
+    vpass = v                      # what emg3d gets
     vin = v.copy()
+    v = np.asarray(v, dtype=float)
     tolk = C_EPS*info['kappa']
+    if f4:
+        # accumulation in single precision: one rounding per added term
+        # (bound: number of source cells) plus log10 / 10** / storage
+        tolk = tolk + (g1.n_cells + 16)*float(np.finfo(np.float32).eps)
     W = ref_matrices(info)
     Wp = ref_matrices_pert(info)
     P = discretize.utils.volume_average(g1, g2)
@@ -499,9 +664,31 @@ def case_interp(spec, rec):
 
     for log in (False, True):
         mode = 'log' if log else 'lin'
-        out = maps.interpolate(g1, v, g2, method='volume', log=log)
+        out = maps.interpolate(g1, vpass, g2, method='volume', log=log)
         if out.shape != tuple(g2.shape_cells):
             raise Violation(f"shape:{mode}", f"{out.shape} vs {g2.shape_cells}")
+        if spec.get('extrapolate', False):
+            o2 = maps.interpolate(g1, vpass, g2, method='volume', log=log,
+                                  extrapolate=False)
+            if not np.array_equal(out, o2):
+                raise Violation(
+                    f"extrapolate_has_effect:{mode}",
+                    "method='volume' is documented to use nearest values "
+                    "outside the source grid independent of `extrapolate`, "
+                    "but extrapolate=False changed "
+                    f"{int(np.sum(out != o2))} of {out.size} cells")
+        out = np.asarray(out, dtype=float)
+        if log and spec.get('reciprocal', False):
+            # "the output is the same for conductivities and resistivities"
+            o2 = maps.interpolate(g1, 1.0/v, g2, method='volume', log=True)
+            lim = 3*tolk*(1 + np.log(10)*np.abs(np.log10(v)).max())
+            with np.errstate(all='ignore'):
+                bad = ~(np.abs(1.0/o2 - out) <= lim*out)
+            if bad.any():
+                raise Violation(
+                    "res_vs_cond:interpolate",
+                    "log mode: 1/interpolate(1/v) differs from interpolate(v)"
+                    f" by {float(np.max(np.abs(1.0/o2-out)/out)):.2e} rel")
         if not np.all(np.isfinite(out)):
             raise Violation(f"not_finite:{mode}", "non-finite output for "
                             "positive finite input")
@@ -587,7 +774,7 @@ def case_interp(spec, rec):
                 f"tolerance; rels {info['rels']}, shapes {g1.shape_cells}->"
                 f"{g2.shape_cells}")
 
-    if not np.array_equal(v, vin):
+    if not np.array_equal(vpass, vin):
         raise Violation("input_modified", "interpolate changed its input")
 
     # (g) Python source of the kernel vs compiled ----------------------------
@@ -617,6 +804,10 @@ def case_interp(spec, rec):
             'decades=' + ('<1' if vs['decades'] < 1 else
                           '<4' if vs['decades'] < 4 else
                           '<8' if vs['decades'] < 8 else '8'),
+            f"layout={layout or ('C' if spec['corder'] else 'F')}",
+            f"dtype={'f4' if f4 else 'f8'}", f"wide={vs.get('wide', False)}",
+            f"extrapolate_false={spec.get('extrapolate', False)}",
+            f"reciprocal={spec.get('reciprocal', False)}",
             f"outside_cells={bool(outside.any())}",
             f"nearest_checked={bool((single & outside).any())}",
             f"multi_cells={not bool(single.all())}")
@@ -637,6 +828,11 @@ def adjoint_strategy():
         'yscale': st.floats(-6.0, 6.0),
         'preload': st.booleans(),
         'seed': gen.SEED,
+        # a second call with another `ngrid` onto the same `oval` (the
+        # gradient accumulates source/frequency pairs with different
+        # computational grids); C-ordered oval / nval
+        'second': st.booleans(),
+        'corder': st.booleans(),
     })
 
 
@@ -649,6 +845,14 @@ def case_adjoint(spec, rec):
     W = ref_matrices(info)
     Wp = ref_matrices_pert(info)
     s1, s2 = tuple(g1.shape_cells), tuple(g2.shape_cells)
+    g3 = third_grid(ps, info, 45) if spec.get('second', False) else None
+    if g3 is not None:
+        info3 = pair_info(g1, g3, info['lattice'], ['third']*3)
+        tolk = C_EPS*max(info['kappa'], info3['kappa'])
+        W3 = ref_matrices(info3)
+        Wp3 = ref_matrices_pert(info3)
+        s3 = tuple(g3.shape_cells)
+    corder = spec.get('corder', False)
 
     def fwd(x):
         return maps.interpolate(g1, x, g2, method='volume', log=False)
@@ -672,11 +876,19 @@ def case_adjoint(spec, rec):
                                 10.0**spec['yscale'])
     else:
         pre = np.zeros((3, *s1), order='F')
-    oval = pre.copy(order='F')
+    if corder:
+        ys = np.ascontiguousarray(ys)
+    oval = pre.copy(order='C' if corder else 'F')
     ysin = ys.copy()
     maps._interp_volume_average_adj(oval=oval, ogrid=g1, nval=ys, ngrid=g2)
     if not np.array_equal(ys, ysin):
         raise Violation("adjoint_modifies_input", "nval changed")
+    if g3 is not None:
+        ys3 = rng.standard_normal((3, *s3))*10.0**spec['yscale'] * \
+            10.0**rng.uniform(-2, 2, size=(3, 1, 1, 1))
+        ys3 = np.ascontiguousarray(ys3) if corder else np.asfortranarray(ys3)
+        maps._interp_volume_average_adj(oval=oval, ogrid=g1, nval=ys3,
+                                        ngrid=g3)
     PTy = oval - pre
 
     for c in range(3):
@@ -687,6 +899,12 @@ def case_adjoint(spec, rec):
         # `oval - pre` cancels: rounding floor eps*|pre|
         floor = 4*np.finfo(float).eps*(np.abs(pre[c]) + np.abs(oval[c]))
         floor = floor + pert_scale(W, Wp, np.abs(ys[c]), transpose=True)
+        if g3 is not None:
+            # both calls were added: P12^T y + P13^T y3
+            ref = ref + ref_apply_T(W3, ys3[c])
+            sc = sc + ref_apply_T(W3, np.abs(ys3[c]))
+            floor = floor + 4*np.finfo(float).eps*sc + \
+                pert_scale(W3, Wp3, np.abs(ys3[c]), transpose=True)
         err = np.abs(PTy[c] - ref)
         if np.any(err > tolk*sc + floor):
             i, w = _worst(err, tolk*sc + floor)
@@ -694,12 +912,18 @@ def case_adjoint(spec, rec):
                 f"adjoint_ref_mismatch:{comp}",
                 f"(oval_after - oval_before)[{i}] = {PTy[c][i]:.15e}, "
                 f"reference (P^T y) {ref[i]:.15e}, {w:.1e} x tol; rels "
-                f"{info['rels']}; oval preloaded: {spec['preload']}")
+                f"{info['rels']}; oval preloaded: {spec['preload']}"
+                + ("; two calls (ngrid g2, then a third grid) onto one oval"
+                   if g3 is not None else ""))
         # exact transposition with what interpolate() applies
         Px = fwd(xs[c])
         lhs = float(np.sum(Px*ys[c]))
         rhs = float(np.sum(xs[c]*PTy[c]))
         dsc = float(np.sum(ref_apply(W, np.abs(xs[c]))*np.abs(ys[c])))
+        if g3 is not None:
+            Px3 = maps.interpolate(g1, xs[c], g3, method='volume', log=False)
+            lhs += float(np.sum(Px3*ys3[c]))
+            dsc += float(np.sum(ref_apply(W3, np.abs(xs[c]))*np.abs(ys3[c])))
         if abs(lhs - rhs) > tolk*dsc + float(np.sum(np.abs(xs[c])*floor)):
             raise Violation(
                 f"not_transpose:{comp}",
@@ -742,13 +966,28 @@ def case_adjoint(spec, rec):
                             f"component {c} leaked into others")
 
     _classify_pair(rec, ps, info, g1, g2)
-    rec.cls(f"x={spec['xkind']}", f"preload={spec['preload']}")
+    rec.cls(f"x={spec['xkind']}", f"preload={spec['preload']}",
+            f"second_ngrid={g3 is not None}", f"corder={corder}",
+            f"wide={spec['values'].get('wide', False)}")
     if _nontrivial(info, spec['values'], v):
         rec.nt(_nt_key(ps, spec['seed']))
     rec.note({'rels': info['rels'], 'shape1': list(s1), 'shape2': list(s2)})
 
 
 # ========================================================== sub: model
+# keyword arguments of Model.interpolate_to_grid ("passed through to
+# emg3d.maps.interpolate"); log=True is not passed to the three L-mappings
+# (it would take log10 of negative numbers).
+OPTS = {
+    'none': {},
+    'log_false': {'log': False},
+    'log_true': {'log': True},
+    'extrapolate_false': {'extrapolate': False},
+    'method_volume': {'method': 'volume'},
+    'all': {'method': 'volume', 'extrapolate': False, 'log': True},
+}
+
+
 def model_strategy():
     return st.fixed_dictionaries({
         'pair': pair_spec(),
@@ -759,17 +998,123 @@ def model_strategy():
         # second use of the same Model object after its values were changed
         'reuse': st.sampled_from(['inplace', 'inplace', 'setter', 'none']),
         'reuse_map': st.sampled_from(gen.MAPPINGS),
+        # structure of mu_r / epsilon_r
+        'mukind': st.sampled_from(['noise', 'blocks', 'spike', 'layered']),
+        'opts': st.sampled_from(['none', 'none', 'log_false', 'log_true',
+                                 'extrapolate_false', 'method_volume',
+                                 'all']),
+        # where the Model object / the target mesh object come from
+        'prov': st.sampled_from(['fresh', 'fresh', 'copy', 'dict', 'pickle',
+                                 'scalar']),
+        'gprov': st.sampled_from(['fresh', 'fresh', 'copy', 'dict']),
+        # further interpolations with the same objects (third grid)
+        'multi': st.sampled_from(['none', 'two_targets', 'two_sources',
+                                  'chain']),
     })
 
 
+def _unit_pattern(rng, shape, kind):
+    """Array in [0, 1] with the given structure."""
+    shape = tuple(shape)
+    if kind == 'blocks':
+        t = np.full(shape, rng.uniform())
+        for _ in range(3):
+            lo = [int(rng.integers(0, n)) for n in shape]
+            hi = [int(rng.integers(l+1, n+1)) for l, n in zip(lo, shape)]
+            t[lo[0]:hi[0], lo[1]:hi[1], lo[2]:hi[2]] = rng.choice(
+                [0.0, 1.0, rng.uniform()])
+    elif kind == 'spike':
+        t = np.zeros(shape)
+        t[tuple(int(rng.integers(0, n)) for n in shape)] = 1.0
+    else:                                                      # layered
+        ax = int(rng.integers(0, 3))
+        sh = [1, 1, 1]
+        sh[ax] = shape[ax]
+        t = np.broadcast_to(rng.uniform(size=shape[ax]).reshape(sh),
+                            shape).copy()
+    return t
+
+
+def _geometry(info):
+    """Reference matrices and single-source-cell classification of a pair."""
+    cls = [cell_classes(info['n1'][d], info['n2'][d])[0] for d in range(3)]
+    single = (cls[0][:, None, None] >= 0) & (cls[1][None, :, None] >= 0) & \
+        (cls[2][None, None, :] >= 0)
+    return {'W': ref_matrices(info), 'Wp': ref_matrices_pert(info),
+            'tolk': C_EPS*info['kappa'], 'single': single, 'info': info,
+            'idx': np.ix_(*[np.maximum(c, 0) for c in cls])}
+
+
+def _check_average(name, m, x_in, p, log, geo):
+    """`p` is the volume average of `x_in` (of log10 if `log`), and equals
+    the source value where the output cell lies in one (extended) cell."""
+    W, Wp, tolk, info = geo['W'], geo['Wp'], geo['tolk'], geo['info']
+    mode = 'log' if log else 'lin'
+    x_in = np.asarray(x_in, float)
+    p = np.asarray(p, float)
+    if p.shape != geo['single'].shape:
+        raise Violation(f"model_shape:{name}", f"{p.shape} ({m})")
+    if not np.all(np.isfinite(p)):
+        raise Violation(f"model_not_finite:{name}:{mode}", f"{m}")
+    if log:
+        q = np.log10(x_in)
+        with np.errstate(all='ignore'):
+            r = np.log10(p)
+        if not np.all(np.isfinite(r)):
+            raise Violation(f"model_not_positive:{name}", f"{m}")
+    else:
+        q, r = x_in, p
+    one = 1.0 if log else 0.0
+    ref = ref_apply(W, q)
+    sc = ref_apply(W, np.abs(q)) + one
+    lim = 3*tolk*sc + pert_scale(W, Wp, np.abs(q))
+    err = np.abs(r - ref)
+    if np.any(err > lim):
+        i, w = _worst(err, lim)
+        raise Violation(
+            f"model_average:{name}:{mode}:{_where(info, i)}",
+            f"{name}, cell {i}: got {r[i]:.15e}, volume average of the "
+            f"{'log10 of the ' if log else ''}input {ref[i]:.15e} "
+            f"({w:.1e} x tol; mapping {m}); rels {info['rels']}")
+    near = x_in[geo['idx']]
+    bad = geo['single'] & (np.abs(p - near) > 10*tolk*np.abs(near))
+    if bad.any():
+        i = tuple(int(k[0]) for k in np.nonzero(bad))
+        raise Violation(
+            f"model_single_cell:{name}:{mode}",
+            f"{name}: output cell {i} lies in one (extended) source cell "
+            f"with value {near[i]:.15e} but got {p[i]:.15e} ({m}); rels "
+            f"{info['rels']}")
+
+
+PROPS = ('property_x', 'property_y', 'property_z', 'mu_r', 'epsilon_r')
+
+
+def _same_models(got, ref, sig, what):
+    for name in PROPS:
+        a, b = getattr(got, name), getattr(ref, name)
+        if (a is None) != (b is None):
+            raise Violation(f"{sig}:{name}:presence", what)
+        if a is None:
+            continue
+        if a.shape != b.shape or not np.allclose(a, b, rtol=1e-12, atol=0):
+            d = float(np.max(np.abs(a-b)/np.abs(b))) \
+                if a.shape == b.shape else np.inf
+            raise Violation(f"{sig}:{name}", f"{what}: differs by {d:.2e} rel")
+
+
 def case_model(spec, rec):
+    import pickle
     import emg3d
     ps, vs = spec['pair'], spec['values']
     g1, g2, info = build_pair(ps)
     case = spec['case']
-    tolk = C_EPS*info['kappa']
-    W = ref_matrices(info)
-    Wp = ref_matrices_pert(info)
+    prov = spec.get('prov', 'fresh')
+    gprov = spec.get('gprov', 'fresh')
+    oname = spec.get('opts', 'none')
+    mukind = spec.get('mukind', 'noise')
+    geo = _geometry(info)
+    tolk, W, Wp = geo['tolk'], geo['W'], geo['Wp']
     s1 = g1.shape_cells
     sig = {'x': build_values(vs, s1, salt=60)}
     if case in ('HTI', 'triaxial'):
@@ -781,26 +1126,84 @@ def case_model(spec, rec):
         if spec['mur'] else None
     epsr = np.asfortranarray(rng.uniform(1, 80, size=s1)) \
         if spec['epsr'] else None
+    if mukind != 'noise':
+        rng2 = gen.rng_of(vs['seed'], 64)
+        if mur is not None:
+            mur = np.asfortranarray(0.5 + 4.5*_unit_pattern(rng2, s1, mukind))
+        if epsr is not None:
+            epsr = np.asfortranarray(1 + 79*_unit_pattern(rng2, s1, mukind))
+    if prov == 'scalar':
+        # Model(grid, 2.0, mu_r=1.) : homogeneous, given as numbers
+        sig = {k: np.full(s1, float(v[0, 0, 0]), order='F')
+               for k, v in sig.items()}
+        mur = None if mur is None else np.full(s1, float(mur[0, 0, 0]),
+                                               order='F')
+        epsr = None if epsr is None else np.full(s1, float(epsr[0, 0, 0]),
+                                                 order='F')
+
+    def derive(model):
+        if prov == 'copy':
+            return model.copy()
+        if prov == 'dict':
+            return emg3d.Model.from_dict(model.to_dict())
+        if prov == 'pickle':
+            return pickle.loads(pickle.dumps(model))
+        return model
+
+    # target mesh object
+    if gprov == 'copy':
+        g2t = g2.copy()
+    elif gprov == 'dict':
+        g2t = emg3d.TensorMesh.from_dict(g2.to_dict())
+    else:
+        g2t = g2
+    if g2t is not g2:
+        for a, b in zip((g2.nodes_x, g2.nodes_y, g2.nodes_z),
+                        (g2t.nodes_x, g2t.nodes_y, g2t.nodes_z)):
+            if not np.array_equal(a, b):
+                raise Violation("mesh_copy_differs",
+                                f"TensorMesh {gprov}: nodes differ")
+
     emg_equal = bool(g1 == g2)
-    if emg_equal and not info['identical']:
-        # not exactly equal, but equal by emg3d's tolerance-based __eq__: the
-        # property says nothing about this case
-        rec.cls('near_equal_grids')
-        return
+    # not exactly equal, but equal by emg3d's tolerance-based __eq__: the
+    # property says nothing about which of the two answers is given - the
+    # model itself, or a model that satisfies everything below
+    near_equal = emg_equal and not info['identical']
 
     results = {}
     logcond = {}
+    logavg = {}
     for m in gen.MAPPINGS:
-        model = emg3d.Model(
-            g1, gen.map_forward(m, sig['x']), gen.map_forward(m, sig.get('y')),
-            gen.map_forward(m, sig.get('z')), mu_r=mur, epsilon_r=epsr,
-            mapping=m)
-        out = model.interpolate_to_grid(g2)
+        lmap = m.startswith('L')
+        opts = dict(OPTS[oname])
+        if lmap and opts.get('log', False):
+            del opts['log']
+        log = False if lmap else opts.get('log', True)
+        # the average is that of log10(conductivity) (up to sign / factor)
+        logavg[m] = lmap or log
+        if prov == 'scalar':
+            def num(v):
+                return None if v is None else float(
+                    np.asarray(v)[0, 0, 0])
+            model = emg3d.Model(
+                g1, num(gen.map_forward(m, sig['x'])),
+                num(gen.map_forward(m, sig.get('y'))),
+                num(gen.map_forward(m, sig.get('z'))), mu_r=num(mur),
+                epsilon_r=num(epsr), mapping=m)
+        else:
+            model = derive(emg3d.Model(
+                g1, gen.map_forward(m, sig['x']),
+                gen.map_forward(m, sig.get('y')),
+                gen.map_forward(m, sig.get('z')), mu_r=mur, epsilon_r=epsr,
+                mapping=m))
+        out = model.interpolate_to_grid(g2t, **opts)
         if info['identical']:
             if out is not model:
                 raise Violation("equal_grid_not_self",
                                 "interpolate_to_grid on an equal grid did "
                                 f"not return the model itself ({m})")
+            continue
+        if near_equal and out is model:
             continue
         if out is model:
             raise Violation("different_grid_returns_self", f"mapping {m}")
@@ -815,6 +1218,12 @@ def case_model(spec, rec):
             if (k in sig) != (p is not None):
                 raise Violation("model_wrong_case", f"property_{k}, {m}")
             if p is None:
+                continue
+            if not logavg[m]:
+                # log=False given for a (non-log) mapping: plain average of
+                # the property itself
+                _check_average('property_'+k, m, gen.map_forward(m, sig[k]),
+                               p, False, geo)
                 continue
             with np.errstate(all='ignore'):
                 cond = gen.map_backward(m, p)
@@ -832,25 +1241,28 @@ def case_model(spec, rec):
                     raise Violation(f"model_range:{name}",
                                     f"[{p.min()}, {p.max()}] leaves "
                                     f"[{arr.min()}, {arr.max()}] ({m})")
+                # mu_r / epsilon_r go through the same call as the
+                # properties: averaged in the same mode
+                _check_average(name, m, arr, p, log, geo)
 
     # same conductivities whatever the parametrisation ---------------------------
-    if results:
-        base = results['Conductivity']
-        for m in gen.MAPPINGS[1:]:
+    lm = [m for m in gen.MAPPINGS if m in results and logavg[m]]
+    if lm:
+        base = results[lm[0]]
+        for m in lm[1:]:
             for k in 'xyz':
                 if k not in sig:
                     continue
-                a = gen.map_backward('Conductivity',
-                                     getattr(base, 'property_'+k))
+                a = gen.map_backward(lm[0], getattr(base, 'property_'+k))
                 b = gen.map_backward(m, getattr(results[m], 'property_'+k))
                 lim = 3*tolk*(1 + np.log(10)*np.abs(np.log10(sig[k])).max())
                 if np.any(np.abs(a - b) > lim*a):
-                    name = 'res_vs_cond' if m == 'Resistivity' else \
-                        f'mapping_vs_cond:{m}'
+                    name = 'res_vs_cond' if m == 'Resistivity' and \
+                        lm[0] == 'Conductivity' else f'mapping_vs_cond:{m}'
                     raise Violation(
                         name, f"property_{k}: conductivities differ by "
                         f"{np.max(np.abs(a-b)/a):.2e} rel between "
-                        f"Conductivity and {m} models; rels {info['rels']}")
+                        f"{lm[0]} and {m} models; rels {info['rels']}")
 
     # ... and they are the volume average of log10(sigma) ------------------------
     for (m, k), lc in logcond.items():
@@ -867,27 +1279,32 @@ def case_model(spec, rec):
                 f"volume average of log10 sigma {ref[i]:.15e} "
                 f"({w:.1e} x tol); rels {info['rels']}")
 
+    if near_equal:
+        rec.cls('near_equal_grids',
+                f"near_equal_returns_self={not results}")
+        return
+
+    def vals(salt0, shape=s1):
+        v = {'x': build_values(vs, shape, salt=salt0)}
+        if 'y' in sig:
+            v['y'] = build_values(vs, shape, salt=salt0+1)
+        if 'z' in sig:
+            v['z'] = build_values(vs, shape, salt=salt0+2)
+        return v
+
+    def make(v, mu, ep, m, grid=g1):
+        return derive(emg3d.Model(
+            grid, gen.map_forward(m, v['x']), gen.map_forward(m, v.get('y')),
+            gen.map_forward(m, v.get('z')),
+            mu_r=None if mu is None else mu.copy(),
+            epsilon_r=None if ep is None else ep.copy(), mapping=m))
+
     # a Model is interpolated from its *current* values (second use of one
     # object after an in-place edit or an assignment), and is not modified
     reuse = spec.get('reuse', 'none')
     if reuse != 'none' and not info['identical']:
         m = spec.get('reuse_map', 'Resistivity')
-
-        def vals(salt0):
-            v = {'x': build_values(vs, s1, salt=salt0)}
-            if 'y' in sig:
-                v['y'] = build_values(vs, s1, salt=salt0+1)
-            if 'z' in sig:
-                v['z'] = build_values(vs, s1, salt=salt0+2)
-            return v
-
-        def make(v, mu, ep):
-            return emg3d.Model(
-                g1, gen.map_forward(m, v['x']), gen.map_forward(m, v.get('y')),
-                gen.map_forward(m, v.get('z')),
-                mu_r=None if mu is None else mu.copy(),
-                epsilon_r=None if ep is None else ep.copy(), mapping=m)
-        model = make(sig, mur, epsr)
+        model = make(sig, mur, epsr, m)
         before = {k: np.array(v, copy=True)
                   for k, v in model.to_dict().items()
                   if isinstance(v, np.ndarray)}
@@ -919,9 +1336,8 @@ def case_model(spec, rec):
             else:
                 model.epsilon_r = epsr2
         got = model.interpolate_to_grid(g2)
-        ref = make(new, mur2, epsr2).interpolate_to_grid(g2)
-        for name in ('property_x', 'property_y', 'property_z', 'mu_r',
-                     'epsilon_r'):
+        ref = make(new, mur2, epsr2, m).interpolate_to_grid(g2)
+        for name in PROPS:
             a, b = getattr(got, name), getattr(ref, name)
             if (a is None) != (b is None):
                 raise Violation(f"model_reuse:{name}:presence", f"{m}")
@@ -936,8 +1352,75 @@ def case_model(spec, rec):
                     f"{float(np.max(np.abs(a-b)/np.abs(b))):.2e} rel ({m})")
         rec.cls(f"reuse={reuse}")
 
+    # the same Model / mesh objects in further interpolations: the result
+    # depends on (values, source grid, target grid) only ------------------------
+    multi = spec.get('multi', 'none')
+    if multi != 'none' and not info['identical']:
+        m = spec.get('reuse_map', 'Resistivity')
+        lmap = m.startswith('L')
+        g3 = None if multi == 'chain' else third_grid(ps, info, 95)
+        if multi == 'chain':
+            # g2 as target, then as source; the input of the second step is
+            # a Model produced by interpolation
+            out2 = make(sig, mur, epsr, m).interpolate_to_grid(g2)
+            keep = {n: None if getattr(out2, n) is None else
+                    np.array(getattr(out2, n), copy=True) for n in PROPS}
+            back = out2.interpolate_to_grid(g1)
+            if back is out2 or not (back.grid == g1):
+                raise Violation("model_chain:wrong_grid", f"{m}")
+            geo21 = _geometry(pair_info(g2, g1, info['lattice'],
+                                        ['back:'+r for r in info['rels']]))
+            for n in PROPS:
+                if (keep[n] is None) != (getattr(back, n) is None):
+                    raise Violation(f"model_chain:{n}:presence", f"{m}")
+                if keep[n] is None:
+                    continue
+                if not np.array_equal(keep[n], getattr(out2, n)):
+                    raise Violation(f"model_modified_by_interpolation:{n}",
+                                    "interpolate_to_grid changed the model "
+                                    f"it was called on ({m}, second step)")
+                _check_average('chain:'+n, m, keep[n], getattr(back, n),
+                               not lmap, geo21)
+            rec.cls('multi=chain')
+        elif g3 is None or g3 == g1 or g3 == g2:
+            rec.cls('multi=skipped_equal_third_grid')
+        elif multi == 'two_targets':
+            model = make(sig, mur, epsr, m)
+            model.interpolate_to_grid(g2)
+            got = model.interpolate_to_grid(g3)
+            if not (got.grid == g3):
+                raise Violation("model_second_target:wrong_grid", f"{m}")
+            ref = make(sig, mur, epsr, m).interpolate_to_grid(fresh_mesh(g3))
+            _same_models(got, ref, "model_second_target",
+                         f"one Model ({m}) interpolated to a grid and then to"
+                         " another grid vs a new Model interpolated to the "
+                         "latter")
+            rec.cls('multi=two_targets')
+        else:
+            # two Models on different grids -> the same target mesh object
+            make(sig, mur, epsr, m).interpolate_to_grid(g3)
+            s2 = g2.shape_cells
+            vb = vals(90, s2)
+            rng3 = gen.rng_of(vs['seed'], 96)
+            mub = None if mur is None else np.asfortranarray(
+                rng3.uniform(0.5, 5, size=s2))
+            epb = None if epsr is None else np.asfortranarray(
+                rng3.uniform(1, 80, size=s2))
+            got = make(vb, mub, epb, m, g2).interpolate_to_grid(g3)
+            ref = make(vb, mub, epb, m, fresh_mesh(g2)).interpolate_to_grid(
+                fresh_mesh(g3))
+            _same_models(got, ref, "model_second_source",
+                         f"Model ({m}) interpolated to a mesh object that "
+                         "was the target of another Model before vs the "
+                         "same with new mesh objects")
+            rec.cls('multi=two_sources')
+
     _classify_pair(rec, ps, info, g1, g2)
-    rec.cls(f"case={case}", f"mur={spec['mur']}", f"epsr={spec['epsr']}")
+    rec.cls(f"case={case}", f"mur={spec['mur']}", f"epsr={spec['epsr']}",
+            f"opts={oname}", f"prov={prov}", f"gprov={gprov}",
+            f"wide={vs.get('wide', False)}")
+    if spec['mur'] or spec['epsr']:
+        rec.cls(f"mukind={mukind}")
     if _nontrivial(info, vs, sig['x']):
         rec.nt(_nt_key(ps, [vs['seed'], case]))
     rec.note({'rels': info['rels'], 'shape1': list(s1),
@@ -948,9 +1431,10 @@ def case_model(spec, rec):
 def weights_strategy():
     return st.fixed_dictionaries({
         'rel': st.sampled_from(RELS),
-        'na': NCELL, 'nb': NCELL,
+        'na': NCELL_W, 'nb': NCELL_W,
         'arith': st.sampled_from(['lattice', 'float']),
-        'widths': st.sampled_from(['uniform', 'stretch', 'random']),
+        'widths': st.sampled_from(['uniform', 'stretch', 'random',
+                                   'boundary']),
         'lgunit': st.integers(-4, 8),
         'scale': gen.lgfloat(1e-2, 1e4),
         'offset': st.sampled_from([0.0, 1.0, 30.0, 1000.0]),
@@ -983,6 +1467,11 @@ def case_weights(spec, rec):
     b = np.ascontiguousarray(b, dtype=float)
     n1, n2 = len(a)-1, len(b)-1
     res = {}
+    fn = getattr(maps, '_volume_average_weights', None)
+    if fn is None or not hasattr(fn, 'py_func'):
+        # private function / not compiled (NUMBA_DISABLE_JIT): nothing to
+        # compare - not a violation of the property
+        raise Inconclusive("private _volume_average_weights(.py_func) absent")
     for name, fn in (('jit', maps._volume_average_weights),
                      ('py', maps._volume_average_weights.py_func)):
         w, ii, io = fn(a, b)
@@ -1029,8 +1518,11 @@ def case_weights(spec, rec):
                             f"x_o={b.tolist()}")
         rec.cls('jit_py_rounding_difference')
     rec.cls(f"rel={spec['rel']}", f"arith={spec['arith']}",
-            f"n1={'1' if n1 == 1 else '2-6' if n1 < 7 else '7-12'}",
-            f"n2={'1' if n2 == 1 else '2-6' if n2 < 7 else '7-12'}")
+            f"n1={'1' if n1 == 1 else '2-6' if n1 < 7 else '7-12' if n1 < 13 else '>=100'}",
+            f"n2={'1' if n2 == 1 else '2-6' if n2 < 7 else '7-12' if n2 < 13 else '>=100'}",
+            f"merged_nodes={'<128' if n1+n2+2 < 128 else '<256' if n1+n2+2 < 256 else '>=256'}")
+    if spec['arith'] == 'float':
+        rec.cls(f"widths={spec['widths']}")
     if spec['rel'] != 'ident' and (cell_classes(a, b)[0] < 0).any():
         rec.nt([spec['rel'], n1, n2, spec['arith'], spec['seed']])
     rec.note({'rel': spec['rel'], 'x_i': a.tolist()[:6], 'x_o': b.tolist()[:6]})
